@@ -1738,7 +1738,7 @@ class ReactionSystem:
         elif isinstance(reaction, SeriesReaction):
             raise ValueError('must pass subindex if the index refers to a SeriesReaction object')
         elif isinstance(reaction, ParallelReaction):
-            return (reaction.X * preconverted_material[reaction._reactant_index]).sum()
+            return sum([X * preconverted_material[i] for X, i in zip(reaction.X, reaction._reactant_index)])
         else:
             return reaction.X * preconverted_material[reaction._reactant_index]
         
